@@ -77,7 +77,7 @@ func c13Run(ps int, m0, m1, m2 int, mlock bool, res *c13Res) string {
 	do := func(ops []apix.Op) string {
 		for _, o := range ops {
 			res.Ops++
-			if f := x.Do(o); f != nil {
+			if f := x.Do(o); f != nil && !(o.K == "commitF" && f.Kind == "error") {
 				return f.Error()
 			}
 		}
